@@ -48,7 +48,7 @@ impl FrameSt {
 #[derive(Clone, Debug)]
 pub struct State {
     pub frames: Vec<FrameSt>,
-    pub atoms: Vec<(i128, i128)>,
+    pub atoms: Rc<Vec<(i128, i128)>>,
     /// number of generator requests made on this path (u32::MAX = paths with different counts merged)
     pub rng_count: u32,
     /// path facts: interval of the latest tracked call result per key, refined by the branch conditions
@@ -58,7 +58,7 @@ pub struct State {
 
 impl State {
     pub fn empty() -> State {
-        State { frames: Vec::new(), atoms: Vec::new(), rng_count: 0, facts: Rc::new(Default::default()) }
+        State { frames: Vec::new(), atoms: Rc::new(Vec::new()), rng_count: 0, facts: Rc::new(Default::default()) }
     }
     fn join_facts(&self, o: &State) -> Rc<std::collections::BTreeMap<Rc<str>, (i128, i128, u64)>> {
         if Rc::ptr_eq(&self.facts, &o.facts) || self.facts == o.facts {
@@ -90,7 +90,16 @@ impl State {
             frames.push(f);
         }
         let n = self.atoms.len().min(o.atoms.len());
-        let atoms = (0..n).map(|i| (self.atoms[i].0.min(o.atoms[i].0), self.atoms[i].1.max(o.atoms[i].1))).collect();
+        // an atom that exists in one state only is not referred to by any value of the other state:
+        // its interval is taken from the state that has it
+        let atoms = if Rc::ptr_eq(&self.atoms, &o.atoms) {
+            self.atoms.clone()
+        } else {
+            let mut v: Vec<(i128, i128)> = (0..n).map(|i| (self.atoms[i].0.min(o.atoms[i].0), self.atoms[i].1.max(o.atoms[i].1))).collect();
+            let longer = if self.atoms.len() >= o.atoms.len() { &self.atoms } else { &o.atoms };
+            v.extend(longer[n..].iter().cloned());
+            Rc::new(v)
+        };
         State { frames, atoms, rng_count: if self.rng_count == o.rng_count { self.rng_count } else { u32::MAX }, facts: self.join_facts(o) }
     }
 
@@ -101,9 +110,12 @@ impl State {
                 f.locals[i] = self.frames[fi].locals[i].widen(&new.frames[fi].locals[i]);
             }
         }
-        for i in 0..j.atoms.len() {
-            let (a, b) = (self.atoms[i], j.atoms[i]);
-            j.atoms[i] = (if b.0 < a.0 { i128::MIN } else { b.0 }, if b.1 > a.1 { i128::MAX } else { b.1 });
+        {
+            let ja = Rc::make_mut(&mut j.atoms);
+            for i in 0..ja.len().min(self.atoms.len()) {
+                let (a, b) = (self.atoms[i], ja[i]);
+                ja[i] = (if b.0 < a.0 { i128::MIN } else { b.0 }, if b.1 > a.1 { i128::MAX } else { b.1 });
+            }
         }
         if !self.facts.is_empty() {
             let mut m = std::collections::BTreeMap::new();
